@@ -1406,4 +1406,279 @@ theorem mpz_set_str_eq_parse_of (htab : TabOk) (hbases : BasesOk) (base : Int) (
       simp only [rd, setStrSign, hb, Bool.false_eq_true, if_false, List.head?_cons, hh]
       exact rest_eq htab hbases hrb62 hrb1 false (c0 :: r0) hsub1
 
+/-! ### mpz_get_str and the round trip -/
+
+theorem natLimbs_zero : natLimbs 0 = [] := by rw [natLimbs]; simp
+
+theorem natLimbs_top (v : Nat) (hv : v ≠ 0) : natLimbs v ≠ [] ∧ (natLimbs v).getLast! ≠ 0 := by
+  induction v using Nat.strong_induction_on with
+  | _ v ih =>
+    rw [natLimbs, dif_neg hv]
+    refine ⟨by simp, ?_⟩
+    by_cases hq : v / B = 0
+    · rw [hq, natLimbs_zero]
+      have : v < B := by
+        by_contra hcon
+        have := Nat.div_pos (Nat.le_of_not_lt hcon) B_pos; omega
+      simp [List.getLast!, Nat.mod_eq_of_lt this, hv]
+    · obtain ⟨h1, h2⟩ := ih (v / B) (Nat.div_lt_self (Nat.pos_of_ne_zero hv) (by rw [B_eq]; omega)) hq
+      cases hl : natLimbs (v / B) with
+      | nil => exact absurd hl h1
+      | cons a l =>
+        rw [hl] at h2
+        simpa [List.getLast!] using h2
+
+/-- the legal bases of mpz_get_str / mpz_out_str -/
+def LegalOutBase (base : Int) : Prop := (2 ≤ base ∧ base ≤ 62) ∨ (-36 ≤ base ∧ base ≤ -2)
+
+theorem digitChar_props (base : Int) (hb : LegalOutBase base) (d : Nat) (hd : d < base.natAbs) :
+    charValue base.natAbs (digitChar base d) = some d ∧ isSpace (digitChar base d) = false ∧
+    digitChar base d ≠ 0 ∧ digitChar base d ≠ 45 ∧ digitChar base d < 256 := by
+  unfold LegalOutBase at hb
+  unfold digitChar charValue isSpace
+  rcases hb with ⟨h1, h2⟩ | ⟨h1, h2⟩
+  · have hn : ¬ base < 0 := by omega
+    simp only [hn, if_false]
+    by_cases h36 : base ≤ 36
+    · have : base.natAbs ≤ 36 := by omega
+      simp only [h36, if_true, this]
+      by_cases h10 : d < 10
+      · simp only [h10, if_true]
+        refine ⟨?_, ?_, by omega, by omega, by omega⟩
+        · rw [if_pos (by omega)]; congr 1; omega
+        · simp; omega
+      · simp only [h10, if_false]
+        refine ⟨?_, ?_, by omega, by omega, by omega⟩
+        · rw [if_neg (by omega), if_neg (by omega), if_pos (by omega)]; congr 1; omega
+        · simp; omega
+    · have : ¬ base.natAbs ≤ 36 := by omega
+      simp only [h36, if_false, this]
+      by_cases h10 : d < 10
+      · simp only [h10, if_true]
+        refine ⟨?_, ?_, by omega, by omega, by omega⟩
+        · rw [if_pos (by omega)]; congr 1; omega
+        · simp; omega
+      · simp only [h10, if_false]
+        by_cases h36d : d < 36
+        · simp only [h36d, if_true]
+          refine ⟨?_, ?_, by omega, by omega, by omega⟩
+          · rw [if_neg (by omega), if_pos (by omega)]; congr 1; omega
+          · simp; omega
+        · simp only [h36d, if_false]
+          refine ⟨?_, ?_, by omega, by omega, by omega⟩
+          · rw [if_neg (by omega), if_neg (by omega), if_pos (by omega)]; congr 1; omega
+          · simp; omega
+  · have hn : base < 0 := by omega
+    have : base.natAbs ≤ 36 := by omega
+    simp only [hn, if_true, this]
+    by_cases h10 : d < 10
+    · simp only [h10, if_true]
+      refine ⟨?_, ?_, by omega, by omega, by omega⟩
+      · rw [if_pos (by omega)]; congr 1; omega
+      · simp; omega
+    · simp only [h10, if_false]
+      refine ⟨?_, ?_, by omega, by omega, by omega⟩
+      · rw [if_neg (by omega), if_pos (by omega)]; congr 1; omega
+      · simp; omega
+
+theorem mapM_digitChar (base : Int) (hb : LegalOutBase base) : ∀ ds : List Nat, (∀ d ∈ ds, d < base.natAbs) →
+    (ds.map (digitChar base)).mapM (digitOf base.natAbs base.natAbs) = some ds
+  | [], _ => rfl
+  | d :: ds, h => by
+    have hd := h d (by simp)
+    have ih := mapM_digitChar base hb ds (fun x hx => h x (List.mem_cons_of_mem _ hx))
+    have hp := (digitChar_props base hb d hd).1
+    simp only [List.map_cons, List.mapM_cons, digitOf, hp, hd, if_true, ih]
+    rfl
+
+theorem takeWhile_all {p : Nat → Bool} : ∀ l : List Nat, (∀ c ∈ l, p c = true) → l.takeWhile p = l
+  | [], _ => rfl
+  | x :: l, h => by
+    rw [List.takeWhile_cons_of_pos (h x (by simp)), takeWhile_all l (fun c hc => h c (List.mem_cons_of_mem _ hc))]
+
+theorem parseSpec_nat (rb : Nat) (h1 : rb ≠ 1) (h62 : rb ≤ 62) (s : List Nat) :
+    parseSpec (rb : Int) s =
+      specRest rb (((s.takeWhile (· != 0)).dropWhile isSpace).head? == some 45)
+        (if (((s.takeWhile (· != 0)).dropWhile isSpace).head? == some 45) = true
+          then ((s.takeWhile (· != 0)).dropWhile isSpace).drop 1 else (s.takeWhile (· != 0)).dropWhile isSpace) := by
+  have hcond : ¬ (((rb : Nat) : Int) < 0 ∨ ((rb : Nat) : Int) = 1 ∨ 62 < ((rb : Nat) : Int)) := by omega
+  unfold parseSpec
+  simp only [hcond, if_false, Int.toNat_natCast]
+  rfl
+
+theorem parse_getStrSpec (base : Int) (hb : LegalOutBase base) (x : Int) :
+    parseSpec ((base.natAbs : Nat) : Int) (getStrSpec base x) = some x := by
+  have hb2 : 2 ≤ base.natAbs ∧ base.natAbs ≤ 62 := by unfold LegalOutBase at hb; omega
+  -- the digit list
+  obtain ⟨ds, hds, hlt, hne, hval⟩ : ∃ ds : List Nat,
+      (if x = 0 then [0] else digitsOf base.natAbs x.natAbs) = ds ∧ (∀ d ∈ ds, d < base.natAbs) ∧ ds ≠ [] ∧
+      ofDigits base.natAbs ds = x.natAbs := by
+    by_cases hx : x = 0
+    · subst hx; exact ⟨[0], by simp, by simp; omega, by simp, by simp [ofDigits]⟩
+    · refine ⟨_, by simp [hx], digitsOf_lt hb2.1 _, digitsOf_ne_nil hb2.1 (by omega), ofDigits_digitsOf hb2.1 _⟩
+  have hprops : ∀ c ∈ ds.map (digitChar base), isSpace c = false ∧ c ≠ 0 ∧ c ≠ 45 := by
+    intro c hc
+    obtain ⟨d, hd, rfl⟩ := List.mem_map.mp hc
+    have := digitChar_props base hb d (hlt d hd)
+    exact ⟨this.2.1, this.2.2.1, this.2.2.2.1⟩
+  unfold getStrSpec
+  simp only [hds]
+  generalize hcs : ds.map (digitChar base) = cs at hprops
+  have hcsne : cs ≠ [] := by rw [← hcs]; simpa using hne
+  have hmap : cs.mapM (digitOf base.natAbs base.natAbs) = some ds := by
+    rw [← hcs]; exact mapM_digitChar base hb ds hlt
+  have htw : ∀ pre : List Nat, (∀ c ∈ pre, c ≠ 0) → (pre ++ cs).takeWhile (· != 0) = pre ++ cs := by
+    intro pre hpre
+    apply takeWhile_all
+    intro c hc
+    rcases List.mem_append.mp hc with h | h
+    · simpa using hpre c h
+    · simpa using (hprops c h).2.1
+  have hfilter : cs.filter (fun c => !isSpace c) = cs := by
+    apply List.filter_eq_self.mpr
+    intro c hc; simp [(hprops c hc).1]
+  obtain ⟨c0, r0, hcr⟩ : ∃ c0 r0, cs = c0 :: r0 := by
+    cases cs with
+    | nil => exact absurd rfl hcsne
+    | cons a l => exact ⟨a, l, rfl⟩
+  have hc0 := hprops c0 (by rw [hcr]; simp)
+  have hrb0 : base.natAbs ≠ 0 := by omega
+  -- specRest on the digit characters
+  have hrest : ∀ neg : Bool, specRest base.natAbs neg cs =
+      some (if neg then -(Int.ofNat x.natAbs) else Int.ofNat x.natAbs) := by
+    intro neg
+    have hfirst : (digitOf base.natAbs (if base.natAbs = 0 then 10 else base.natAbs) c0).isNone = false := by
+      rw [if_neg hrb0]
+      have hm := hmap
+      rw [hcr] at hm
+      simp only [List.mapM_cons] at hm
+      cases hd : digitOf base.natAbs base.natAbs c0 with
+      | none => simp [hd] at hm
+      | some v => rfl
+    unfold specRest
+    rw [hcr]
+    dsimp only
+    rw [hfirst]
+    simp only [Bool.false_eq_true, if_false, hrb0]
+    unfold specTail
+    rw [← hcr, hfilter, hmap]
+    simp only [hval]
+  rw [parseSpec_nat _ (by omega) hb2.2]
+  by_cases hx : x < 0
+  · simp only [hx, if_true]
+    rw [htw [45] (by simp)]
+    have hdw : ([45] ++ cs).dropWhile isSpace = 45 :: cs := by
+      simp [isSpace]
+    rw [hdw]
+    simp only [List.head?_cons, beq_self_eq_true, if_true, List.drop_succ_cons, List.drop_zero]
+    rw [hrest true]
+    simp only [if_true]
+    congr 1; simp only [Int.ofNat_eq_natCast]; omega
+  · simp only [hx, if_false, List.nil_append]
+    have := htw [] (by simp)
+    simp only [List.nil_append] at this
+    rw [this]
+    have hdw : cs.dropWhile isSpace = cs := by
+      rw [hcr]; simp [hc0.1]
+    rw [hdw]
+    have hh : (cs.head? == some 45) = false := by
+      rw [hcr]; simpa using hc0.2.2
+    simp only [hh, Bool.false_eq_true, if_false]
+    rw [hrest false]
+    simp only [Bool.false_eq_true, if_false]
+    congr 1; simp only [Int.ofNat_eq_natCast]; omega
+
+theorem mpn_get_str_of_table {b : Nat} (hb : 2 ≤ b) (hb62 : b ≤ 62)
+    (hnp : pow2P b = false → NonPow2Ok b) (hp2 : pow2P b = true → Pow2Ok b) (h10 : Base10Ok)
+    (up : List Nat) (hu : Limbs up) (hne : up ≠ []) (htop : up.getLast! ≠ 0) :
+    mpn_get_str b up = digitsOf b (val up) := by
+  unfold mpn_get_str
+  have hl : (up.length == 0) = false := by
+    cases up with
+    | nil => exact absurd rfl hne
+    | cons a l => rfl
+  simp only [hl, Bool.false_eq_true, if_false]
+  cases hp : pow2P b with
+  | true =>
+    simp only [if_true]
+    have hok := hp2 hp
+    have h64 : bigBase b ≤ 64 := by
+      by_contra hcon
+      have : 2 ^ 64 ≤ 2 ^ bigBase b := Nat.pow_le_pow_right (by omega) (by omega)
+      rw [hok.1] at this; omega
+    exact get_str_pow2_of_table hb hok h64 up hu hne htop
+  | false =>
+    simp only [Bool.false_eq_true, if_false]
+    split
+    · exact sb_get_str_of_table hb hb62 (hnp hp) h10 up hu hne htop
+    · rfl
+
+theorem text_lower : ∀ d < 36, numToTextLower.getD d 0 = (if d < 10 then 48 + d else 97 + (d - 10)) := by decide
+theorem text_upper : ∀ d < 36, numToTextUpper.getD d 0 = (if d < 10 then 48 + d else 65 + (d - 10)) := by decide
+theorem text_62 : ∀ d < 62, numToText62.getD d 0 =
+    (if d < 10 then 48 + d else if d < 36 then 65 + (d - 10) else 97 + (d - 36)) := by decide
+
+theorem getStrBase_legal (base : Int) (hb : LegalOutBase base) :
+    ∃ tab, getStrBase base = some (base.natAbs, tab) ∧ ∀ d < base.natAbs, tab.getD d 0 = digitChar base d := by
+  unfold LegalOutBase at hb
+  unfold getStrBase digitChar
+  rcases hb with ⟨h1, h2⟩ | ⟨h1, h2⟩
+  · have e : base.toNat = base.natAbs := by omega
+    by_cases h36 : base > 36
+    · refine ⟨numToText62, ?_, ?_⟩
+      · simp only [show base ≥ 0 by omega, if_true, show ¬ base ≤ 1 by omega, if_false, h36, show ¬ base > 62 by omega, e]
+      · intro d hd
+        simp only [show ¬ base < 0 by omega, if_false, show ¬ base ≤ 36 by omega]
+        exact text_62 d (by omega)
+    · refine ⟨numToTextLower, ?_, ?_⟩
+      · simp only [show base ≥ 0 by omega, if_true, show ¬ base ≤ 1 by omega, if_false, h36, e]
+      · intro d hd
+        simp only [show ¬ base < 0 by omega, if_false, show base ≤ 36 by omega, if_true]
+        exact text_lower d (by omega)
+  · refine ⟨numToTextUpper, ?_, ?_⟩
+    · have e : (-base).toNat = base.natAbs := by omega
+      simp only [show ¬ base ≥ 0 by omega, if_false, e, show ¬ base.natAbs ≤ 1 by omega, show ¬ base.natAbs > 36 by omega]
+    · intro d hd
+      simp only [show base < 0 by omega, if_true]
+      exact text_upper d (by omega)
+
+theorem mpz_get_str_spec_of (hbases : BasesOk) (h10 : Base10Ok) (base : Int) (hb : LegalOutBase base) (x : Int) :
+    mpz_get_str base x = some (getStrSpec base x) := by
+  have hb2 : 2 ≤ base.natAbs ∧ base.natAbs ≤ 62 := by unfold LegalOutBase at hb; omega
+  obtain ⟨tab, ht, htab⟩ := getStrBase_legal base hb
+  unfold mpz_get_str getStrSpec
+  rw [ht]
+  simp only
+  have hbo := hbases base.natAbs (by omega) hb2.1
+  have hds : mpn_get_str base.natAbs (natLimbs x.natAbs) = (if x = 0 then [0] else digitsOf base.natAbs x.natAbs) := by
+    by_cases hx : x = 0
+    · subst hx; simp [natLimbs_zero, mpn_get_str]
+    · have hxn : x.natAbs ≠ 0 := by omega
+      obtain ⟨t1, t2⟩ := natLimbs_top _ hxn
+      obtain ⟨v1, v2⟩ := val_natLimbs x.natAbs
+      rw [mpn_get_str_of_table hb2.1 hb2.2 hbo.1 hbo.2 h10 _ v2 t1 t2, v1]; simp [hx]
+  rw [hds]
+  congr 2
+  apply List.map_congr_left
+  intro d hd
+  apply htab
+  by_cases hx : x = 0
+  · simp only [hx, if_true, List.mem_singleton] at hd; omega
+  · simp only [hx, if_false] at hd; exact digitsOf_lt hb2.1 _ d hd
+
+theorem getStrSpec_bytes (base : Int) (hb : LegalOutBase base) (x : Int) : ∀ c ∈ getStrSpec base x, c < 256 := by
+  have hb2 : 2 ≤ base.natAbs ∧ base.natAbs ≤ 62 := by unfold LegalOutBase at hb; omega
+  intro c hc
+  unfold getStrSpec at hc
+  simp only at hc
+  rcases List.mem_append.mp hc with h | h
+  · split at h
+    · simp at h; omega
+    · simp at h
+  · obtain ⟨d, hd, rfl⟩ := List.mem_map.mp h
+    refine (digitChar_props base hb d ?_).2.2.2.2
+    by_cases hx : x = 0
+    · simp only [hx, if_true, List.mem_singleton] at hd; omega
+    · simp only [hx, if_false] at hd; exact digitsOf_lt hb2.1 _ d hd
+
 end Mpir.Radix
